@@ -154,7 +154,9 @@ def build(rng, small, allow_ws):
             if sp is None:
                 continue
             kl = rng.random() < 0.8
-            k = CLASSES[(bn, kl, False)](sp, ttl="", lbl=text(rng, rng.choice(["short", "medium"])), msg="")
+            km = rng.random() < 0.4  # a sub-diagnostic may carry a span (+label) *and* a message
+            k = CLASSES[(bn, kl, km)](sp, ttl="", lbl=text(rng, rng.choice(["short", "medium"])),
+                                      msg=text(rng, rng.choice(["short", "medium"])) if km else "")
         else:
             k = CLASSES[(bn, False, True)](None, ttl="", lbl="", msg=text(rng, rng.choice(["medium", "long"])))
         d.add_sub_diagnostic(k)
@@ -414,7 +416,8 @@ def fingerprint(stored, d):
 
     s = to_span(d.span)
     ind = min((len(l) - len(l.lstrip()) for l in stored[s.start.line - 1: s.end.line] if l.strip()), default=0)
-    kinds = tuple(("s" if k.span is not None else "m") + ("l" if k.rendered_span_label else "") for k in d.children)
+    kinds = tuple(("s" if k.span is not None else "m") + ("l" if k.rendered_span_label else "")
+                  + ("M" if k.span is not None and k.rendered_message else "") for k in d.children)
     shape = ("multi" if s.start.line != s.end.line else "single", min(s.end.line - s.start.line, 3),
              "trim" if ind > 12 else "keep", kinds, bool(d.rendered_span_label), bool(d.rendered_message),
              len((d.rendered_span_label or "").split()) // 8)
